@@ -431,7 +431,10 @@ def _check_eval(node):
         src = ast.unparse(ast.fix_missing_locations(ast.Expression(body=node)))
         if "**" in src and len(src) > 60:
             return False
-        v = eval(compile(src, "<gen>", "eval"), dict(prelude_ns()))
+        import warnings
+        with warnings.catch_warnings():
+            warnings.simplefilter("ignore")
+            v = eval(compile(src, "<gen>", "eval"), dict(prelude_ns()))
         if isinstance(v, int) and not isinstance(v, bool) and abs(v) > 10 ** 40:
             return False
         if isinstance(v, (str, bytes, list, tuple)) and len(v) > 200:
